@@ -16,7 +16,7 @@ func profile() vh.ShimProfile {
 			v = append(v, "lapsing")
 		}
 	}
-	return vh.ShimProfile{Validities: v, KeyIDClasses: []string{"ysshca0", "ysshca1", "ysshca5", "text", "missing", "ysshca7"}, MaxOps: 30}
+	return vh.ShimProfile{Validities: v, KeyIDClasses: []string{"ysshca0", "ysshca1", "ysshca5", "text", "missing", "ysshca7"}, MaxOps: 30, Faults: true}
 }
 
 // lapseShare: how many of the validity slots are "lapsing" (each such history sleeps ~3 s).
@@ -56,6 +56,44 @@ const rule = "histories of 1..30 operations (add key / certificate+key / hardwar
 func TestC07Purge(t *testing.T) {
 	vh.Run(t, vh.Spec[vh.ShimCase]{Property: "C07", Name: "TestC07Purge", Rule: rule,
 		Gen: func(t *rapid.T) vh.ShimCase { return vh.GenShimCase(t, profile()) }, Exec: exec})
+}
+
+// TestC07PurgeRefused: the underlying agent REFUSES to remove identities (failure reply) while out-of-window
+// certificates sit in it: nothing that comes back meanwhile may contain such a certificate or a
+// signature made with one.
+func TestC07PurgeRefused(t *testing.T) {
+	vh.Run(t, vh.Spec[vh.ShimCase]{Property: "C07", Name: "TestC07PurgeRefused",
+		Rule: "histories in which the underlying agent holds 1..3 certificates outside their window (past / future / zero window) beside current ones and answers every removal request with a failure for a stretch of 1..6 operations (list, signers, sign with the out-of-window certificate, sign through a signer), after which removals work again and the agent is listed twice more; both upstream modes. Same reference model; in addition every answer that comes back while removals are refused must be free of out-of-window certificates and of signatures made with them",
+		Gen: func(t *rapid.T) vh.ShimCase {
+			c := vh.ShimCase{NoUpstream: rapid.Bool().Draw(t, "noUpstream")}
+			nbad := rapid.IntRange(1, 3).Draw(t, "nbad")
+			keys := []string{"p256b", "ed25519b", "rsa1536", "p384a", "dsa1024"}
+			for i := 0; i < nbad; i++ {
+				c.Certs = append(c.Certs, vh.CertDef{Key: keys[i], KeyIDClass: rapid.SampledFrom([]string{"text", "ysshca1", "ysshca0"}).Draw(t, fmt.Sprintf("kid%d", i)),
+					Validity: rapid.SampledFrom([]string{"past", "past", "future", "zero"}).Draw(t, fmt.Sprintf("val%d", i)), Serial: uint64(1000 + i)})
+			}
+			c.Certs = append(c.Certs, vh.CertDef{Key: keys[3], KeyIDClass: "text", Validity: "current", Serial: 1100})
+			order := rapid.Permutation([]int{0, 1, 2, 3}[:len(c.Certs)]).Draw(t, "order")
+			if rapid.Bool().Draw(t, "plainKeyToo") {
+				c.Initial = append(c.Initial, vh.Op{Kind: "oobadd", Key: "p521a", Cert: -1})
+			}
+			for _, ci := range order {
+				c.Initial = append(c.Initial, vh.Op{Kind: "oobaddcert", Cert: ci, Comment: "upstream"})
+			}
+			c.Ops = append(c.Ops, vh.Op{Kind: "plan", Cert: -1, Plan: []vh.FaultRule{{Index: -1, Code: vh.CodeRemove, Kind: "fail", Remaining: -1}}})
+			n := rapid.IntRange(1, 6).Draw(t, "n")
+			for i := 0; i < n; i++ {
+				k := rapid.SampledFrom([]string{"signers", "signers", "sign", "sign", "signvia", "list"}).Draw(t, fmt.Sprintf("op%d", i))
+				op := vh.Op{Kind: k, Cert: -1}
+				if k == "sign" || k == "signvia" {
+					op.Cert = rapid.IntRange(0, len(c.Certs)-1).Draw(t, fmt.Sprintf("target%d", i))
+					op.Data = []byte(fmt.Sprintf("data %d", i))
+				}
+				c.Ops = append(c.Ops, op)
+			}
+			c.Ops = append(c.Ops, vh.Op{Kind: "plan", Cert: -1}, vh.Op{Kind: "list", Cert: -1}, vh.Op{Kind: "signers", Cert: -1})
+			return c
+		}, Exec: exec})
 }
 
 // TestC07Lapse: short histories in which a certificate lapses during the history.
